@@ -12,7 +12,9 @@ EXTENDS SinksJs
 CONSTANTS GenTokens,   \* sequence of tokens (each a sequence of symbols)
           LeafTokens,  \* tokens used as string leaves of structured values
           KeyTokens,   \* tokens used as map keys
-          MaxTok
+          MaxTok,
+          UnencMode    \* what the call encoders do with an argument json.Marshal rejects: "empty" as coded (the error is
+                       \* ignored, nothing is written: fn(,1)); negative: "goquote" (strconv.Quote of the value's text form)
 
 VARIABLES inp, kind
 cvars == <<inp, kind>>
@@ -160,14 +162,37 @@ CCarrier(c, w, i) ==
                IN lbl' = [op |-> "value", tree |-> t, json |-> jt, preds |-> PredictAll(<<>>, jt, FALSE)]
             /\ UNCHANGED vars
 
-CNext == \/ \E t \in 1..Len(GenTokens) : CFeed(t)
+(* argument VALUE KINDS json.Marshal rejects (SafeScript / SafeScriptInline / JSFuncCall: attribute form and inline form):
+   NaN, +Inf, -Inf, a struct holding NaN next to a string field, a type whose MarshalJSON fails with a text. Such a value
+   has no JSON encoding, so nothing is claimed about what arrives -- but it must not end the script element, the
+   attribute or open a comment, whatever text it carries.                                                         *)
+UnencKinds == <<"nan", "posinf", "neginf", "struct_nan_text", "failing_marshaler">>
+GoQuote(c) == CASE c = DQ -> <<BSL, DQ>> [] c = BSL -> <<BSL, BSL>> [] c = "LF" -> <<BSL, "n">> [] c = "CR" -> <<BSL, "r">>
+                [] c = "TAB" -> <<BSL, "t">> [] OTHER -> <<c>>           \* Go quoting leaves < > & alone
+UnencOut(u, text) == IF UnencMode = "empty" THEN <<>>
+                     ELSE <<DQ, "{">> \o JsMap(GoQuote, text) \o <<"}", DQ>>
+PredictUnenc(p, u, text) ==
+    LET out == ChainV(StrVariant, Tail(PosDef(p).stages), UnencOut(u, text))
+        r == ConsumeAll(p, out)
+        v == Verdict(p, r.cs, TRUE, FALSE)
+    IN  [pos |-> p, out |-> out, dec |-> <<>>, viol |-> v, sig |-> IF v = "" THEN "" ELSE v \o "." \o p]
+CUnenc(u, i) ==
+            /\ kind = "root"
+            /\ inp' = <<u, i>> /\ kind' = "unenc"
+            /\ LET text == IF UnencKinds[u] \in {"struct_nan_text", "failing_marshaler"} THEN CarrierStrings[i] ELSE <<>> IN
+               lbl' = [op |-> "unenc", tree |-> [k |-> "unenc", u |-> UnencKinds[u], s |-> text, items |-> <<>>],
+                       json |-> <<>>, preds |-> <<PredictUnenc("OnAttr", u, text), PredictUnenc("Inline", u, text)>>]
+            /\ UNCHANGED vars
+
+CNext == \/ \E u \in 1..Len(UnencKinds), i \in 1..(Len(GenTokens) + Len(LeafTokens)) : CUnenc(u, i)
+         \/ \E t \in 1..Len(GenTokens) : CFeed(t)
          \/ \E i \in 1..NShapes, key \in 1..Len(KeyTokens) : CShape(i, key)
          \/ \E a \in Leaves, b \in Leaves : CLeaves(a, b)
          \/ \E c \in 1..Len(Carriers), w \in 1..5, i \in 1..(Len(GenTokens) + Len(LeafTokens)) : CCarrier(c, w, i)
 
 CView == <<inp, kind>>
 \* every prediction of a repaired model is clean; with the pinned table only the known signature may appear
-PredictionsClean == lbl.op \in {"string", "value"} =>
+PredictionsClean == lbl.op \in {"string", "value", "unenc"} =>
     \A i \in 1..Len(lbl.preds) : lbl.preds[i].sig \in {"", "JsStr.NoDollarEntry.InTemplate"}
-CEmit == IF lbl'.op \in {"string", "value"} THEN PrintT(<<"CASE", ToJson(lbl')>>) ELSE TRUE
+CEmit == IF lbl'.op \in {"string", "value", "unenc"} THEN PrintT(<<"CASE", ToJson(lbl')>>) ELSE TRUE
 =============================================================================
